@@ -33,6 +33,19 @@ CHECKS = {
         "runtime monitoring: reference-model oracle over reader emissions + icontract post-conditions vs independent scanner",
         "3/C02",
     ),
+    "C03": (
+        "exploration",
+        "Runtime monitor on the real reader + parser + MetaMarkdown: generated programs whose documentable entities carry bodies of "
+        "globally unique tracer words (grammar: paragraphs, lists, fenced/indented code, note boxes of 5 kinds x 10 start/end forms, "
+        "optional leading metadata) are laid out in each marker style x 3 marker-character sets with ordinary comments, blank lines "
+        "(also between a preceding doc block and its statement) and continuations; per entity the tracer sequence of doc_list, of the "
+        "rendered HTML and the metadata are compared with the model, foreign or `zn` (ordinary comment) words are violations; bodies "
+        "also go straight through MetaMarkdown.convert; an icontract post-condition on AdmonitionPreprocessor.run checks word "
+        "conservation and order.",
+        "Trusts the model->expected mapping (docs attach to the statement they follow / precede); HTML structure is not compared.",
+        "runtime monitoring: reference-model oracle over doc_list/doc/meta with tracer words + icontract on AdmonitionPreprocessor.run",
+        "3/C03",
+    ),
     "C04": (
         "exploration",
         "Runtime monitor on the real parser + correlate(): the complete legal product scope default x early/late x declaration "
